@@ -25,7 +25,8 @@ VOCAB = ['word', 'snake_case', 'a_b_c', 'x_1', 'mid_dle', 'CamelCase', 'e.g.', '
          '&', '&&', 'AT&T', '&amp', '&copy', '&#', '&#x', '&;', '&#;', 'a&b', '<', '< b', 'a <', '1 < 2', '3>2',
          '1', '12', '2.5', '3.14', '1.a', '1)x', '(1)', '1.', '1)', '2.', '7)', '10.', '0.', '1234567890.', '1234567890)', '-1', '+1', '#1', '#hashtag', '####### seven',
          'C#', 'a#b', 'x-y', 'x+y', 'a=b', 'a|b', 'a~b', 'a^b', '$5', '5%', 'me@x.y', 'http://x.y/z?q=1&r=2', 'www.x.y', 'x.y', '/path/to', '~/home',
-         '. x', ') x', '.)', '-x', '+x', '#x', '=x', 'x>', '|x', 'x|', ':-', '-:', '--x', 'x - -', '_', '__', 'a*b', '*x', 'x*', '_x', 'x_', '`']
+         '. x', ') x', '.)', '-x', '+x', '#x', '=x', 'x>', '|x', 'x|', ':-', '-:', '--x', 'x - -', '_', '__', 'a*b', '*x', 'x*', '_x', 'x_', '`',
+         'tmp_dir_', '_lead', 'trail_', '2*3', 'a_b_', '_c_d', 'f(*args)', '(_x)', 'x_)', '*.py', 'foo*', '**kw', 'end**']
 VOCAB = sorted(set(VOCAB))
 
 ENTITY = re.compile(r'&(#[0-9]{1,7}|#[xX][0-9a-fA-F]{1,6}|[A-Za-z][A-Za-z0-9]{0,31});')
@@ -73,16 +74,29 @@ def inert(lines):
         return False
     if '[' in text and ']' in text[text.index('['):]:
         return False
-    for m in re.finditer(r'\*+', text):
-        a = text[m.start() - 1] if m.start() > 0 else ' '
-        b = text[m.end()] if m.end() < len(text) else ' '
-        if not (a.isspace() and b.isspace()):
-            return False
-    for m in re.finditer(r'_+', text):
-        a = text[m.start() - 1] if m.start() > 0 else ' '
-        b = text[m.end()] if m.end() < len(text) else ' '
-        if not ((a.isspace() and b.isspace()) or (a.isalnum() and b.isalnum() and a.isascii() and b.isascii())):
-            return False
+    # emphasis needs a delimiter run that can open and a LATER run of the same character that can close (spec 6.2: left-/right-flanking;
+    # for _ the intraword restrictions); a paragraph with no such pair has no emphasis
+    import string
+    for ch in '*_':
+        runs = []
+        for m in re.finditer(re.escape(ch) + '+', text):
+            prev = text[m.start() - 1] if m.start() > 0 else ' '
+            nxt = text[m.end()] if m.end() < len(text) else ' '
+            if not (prev.isascii() and nxt.isascii()):
+                return False
+            ws_p, ws_n = prev.isspace(), nxt.isspace()
+            pu_p, pu_n = prev in string.punctuation, nxt in string.punctuation
+            left = not ws_n and (not pu_n or ws_p or pu_p)
+            right = not ws_p and (not pu_p or ws_n or pu_n)
+            if ch == '*':
+                runs.append((left, right))
+            else:
+                runs.append((left and (not right or pu_p), right and (not left or pu_n)))
+        opened = False
+        for can_open, can_close in runs:
+            if can_close and opened:
+                return False
+            opened = opened or can_open
     return True
 
 
